@@ -85,6 +85,97 @@ prop("C05",
      thorough=dict(cases=3000, args={"nmax": 7}),
      )
 
+prop("C06",
+     design_ref="DESIGN.md §5 C06",
+     technique="invariant monitor at quiescent points: structural + semantic audit of the live node table and (hook H3) private tables",
+     level_text=("Runtime monitoring: random operation histories on one shared store (fresh, taken over from a natively "
+                 "compiled ADF, or from a bridged ADF), interleaved with export/import+repair and rebuild-from-node-list; "
+                 "after every operation (half of the histories) or every 8 operations the node table is audited: constants "
+                 "in place, no equal branches, children earlier and testing later variables, no duplicate nodes, all "
+                 "entries denote pairwise different functions (truth tables), unique table = inverse of node table; every "
+                 "operation result is compared handle-wise with all earlier handles (same handle iff same function)."),
+     level_note=ORACLE_NOTE + " Truth tables bound the store to <=11 variables.",
+     rule=("cases = operation histories (10-120 operations, 1-11 variables); non-trivial = history reached >=8 nodes and "
+           ">=6 distinct functions; distinct by hash of the operation transcript"),
+     quick=dict(cases=400, args={}),
+     thorough=dict(cases=5000, args={}),
+     )
+
+prop("C07",
+     design_ref="DESIGN.md §5 C07",
+     technique="shadow-state monitor: truth table per issued handle, prefix immutability, memo-table audit (hook H3)",
+     level_text=("Runtime monitoring: every operation result is compared with the operation applied to the operands' "
+                 "shadow truth tables (cofactor for restrict), the node-table prefix that existed before the call must be "
+                 "unchanged, every issued handle must still denote its function at each audit, and every entry of the "
+                 "if-then-else and restrict memo tables is checked semantically; after the history all binary operations on "
+                 "random pairs and all restrictions are asked again on warm memo tables."),
+     level_note=ORACLE_NOTE,
+     rule=("cases = operation histories as in C06 plus a re-query phase; non-trivial as in C06; distinct by transcript hash"),
+     quick=dict(cases=400, args={}),
+     thorough=dict(cases=5000, args={}),
+     )
+
+prop("C13",
+     design_ref="DESIGN.md §5 C13",
+     technique="reference-model monitor: counts, depth, supports, cubes recomputed from node table and truth tables",
+     level_text=("Runtime monitoring: for every handle produced by the store histories: path counts vs root-to-leaf paths "
+                 "counted on the node table, naive (and, where documented, memoised) model counts in exact ratio to "
+                 "satisfying/falsifying assignments and agreeing with each other, depth vs longest path, dependency set vs "
+                 "essential variables, both impact measures, path cubes pairwise disjoint and covering exactly the "
+                 "(counter-)models where the goal variable has the goal value; more_models on all pairs below 64x64."),
+     level_note=ORACLE_NOTE + " Diagram depth < 60 (counts are machine words).",
+     rule=("cases = store histories; every distinct handle of a history is queried; non-trivial as in C06; "
+           "distinct by transcript hash"),
+     quick=dict(cases=150, args={}),
+     thorough=dict(cases=2500, args={}),
+     )
+
+prop("C18",
+     design_ref="DESIGN.md §5 C18",
+     technique="reference-model monitor: nogood store vs brute-force extension sets, closure via hook H5",
+     level_text=("Runtime monitoring: random add sequences (nested, duplicate, subsuming, resolvable nogoods; modes None / "
+                 "Equiv / Subsume, also switched mid-sequence) over <=7 variables; for all total assignments and for random "
+                 "partial interpretations the store's conclusions and the closure are compared with the set of total "
+                 "extensions that avoid all added nogoods: sound literals, no spurious conflict, conflict on direct match, "
+                 "nothing forgotten, nothing invented, closure idempotent."),
+     level_note=ORACLE_NOTE,
+     rule=("cases = (add sequence, interpretations) pairs; non-trivial = >=2 nogoods with one contained in another; "
+           "distinct by hash of the add sequence"),
+     quick=dict(cases=3000, args={}),
+     thorough=dict(cases=40000, args={}),
+     )
+
+prop("C19",
+     design_ref="DESIGN.md §5 C19",
+     technique="schedule-controlled monitor: polls injected at the NodeCreated hook, sequential model of channel chain; threaded poll logs",
+     level_text=("Runtime monitoring: producer programs stream over a relay chain of length 2; at every node creation (hook "
+                 "H2 is the yield point) the harness polls relay and last receiver with handles 0, 1, existing, next, beyond "
+                 "and usize::MAX. For programs creating <=12 nodes every single cut x target x handle kind is enumerated, "
+                 "plus random multi-poll schedules; a sequential model predicts table length and answer of every poll and "
+                 "every receiver table must equal the producer's prefix. Real producer/poller threads are run as well and "
+                 "their poll logs judged afterwards."),
+     level_note=ORACLE_NOTE + " A receiver can only observe the channel, so cutting after every send is exhaustive for what it can see.",
+     rule=("cases = (producer program, poll schedule) runs; non-trivial = some poll observed a proper prefix of the final "
+           "table; distinct by program hash; evidence also counts distinct cut vectors"),
+     quick=dict(cases=25, args={}),
+     thorough=dict(cases=400, args={}),
+     )
+
+prop("C20",
+     design_ref="DESIGN.md §5 C20",
+     technique="exhaustive enumeration monitor (length<=7) + sampled long vectors vs product model",
+     level_text=("Runtime monitoring: both public iterators are collected for ALL vectors over {T,F,u} of length 0..7 (3280 "
+                 "patterns, complete) and for random vectors of length 8-14, and compared as multisets with the 2^k / 3^k "
+                 "product; decided positions unchanged, three-valued starts with the input, handles of undecided positions "
+                 "preserved, None forever after the end."),
+     level_note=ORACLE_NOTE,
+     rule=("cases = interpretation vectors; non-trivial = >=2 undecided positions; distinct by pattern"),
+     quick=dict(cases=40, args={}),
+     thorough=dict(cases=600, args={}),
+     exhaustive_key="exhaustive_patterns",
+     exhaustive_scope="all vectors over {T,F,u} of length 0..7",
+     )
+
 NOT_BUILT = "monitor not built yet in this session (work in progress); see DESIGN.md for the planned design"
-for _pid in ["C06", "C07", "C08", "C09", "C10", "C11", "C12", "C13", "C14", "C15", "C16", "C17", "C18", "C19", "C20"]:
+for _pid in ["C08", "C09", "C10", "C11", "C12", "C14", "C15", "C16", "C17"]:
     prop(_pid, claimed=False, reason=NOT_BUILT)
